@@ -18,7 +18,7 @@ document.  A `Variant` says, per leak, where the code keeps the datum (class = `
 and whether the `type='any'` path of `readArgumentAndSource` re-enables parameters:
 
 * `pinned`   — the tree as pinned (all leaks present: D5, D6a, D6b, D6c, D6d, column types),
-* `current`  — the tree after the `fix:` commits (D5, D6a, D6b repaired),
+* `current`  — the tree after the `fix:` commits (D5, D6a, D6b, D6d repaired),
 * `repaired` — every datum per document.
 
 The step functions follow the Python statement by statement (same order of reads and writes,
@@ -70,7 +70,7 @@ structure Variant where
   deriving DecidableEq, Repr
 
 def pinned : Variant := ⟨false, false, false, false, false⟩
-def current : Variant := ⟨true, true, false, false, false⟩
+def current : Variant := ⟨true, true, false, true, false⟩
 def repaired : Variant := ⟨true, true, true, true, true⟩
 
 /-- frames of the document's context stack that matter for what `\\item` means -/
@@ -111,6 +111,10 @@ def init : G :=
 def newDoc : D :=
   { skip := false, boxes := 0, ctx := [], loaded := [], inEnv := List.replicate initInEnvLen none, depth := initDepth,
     regs := regDefaults, idxSec := idxSectionDefault, cols := defaultCols }
+
+/-- the document's own state at creation; the classes the document class may replace by per-document ones
+    (`theindex`, `printindex`, `bibliography`) start from what the shared classes say -/
+def newDocOf (g : G) : D := { newDoc with idxSec := g.idxSec }
 
 abbrev S := G × D
 
@@ -259,7 +263,7 @@ def finish (v : Variant) : Nat → S → S × List Out
 
 /-- one document processed to the end of its input, starting from class-level state `g` -/
 def runDoc (v : Variant) (g : G) (doc : List Ev) : G × List Out :=
-  let r := run v (g, newDoc) (annot doc)
+  let r := run v (g, newDocOf g) (annot doc)
   let f := finish v r.1.2.boxes r.1
   (f.1.1, r.2 ++ f.2)
 
